@@ -86,6 +86,47 @@ class M18(D.Mode):
         return derive_expected(sname, v, M)
 
 
+
+# ------------------------------------------------------------------------------------------ model arguments (Derive.visit)
+def model_specs(sname):
+    out = []
+    for f in STRUCTS[sname]:
+        miss = "r" if f["miss"] == "req" else "d" + hx(f["miss"][1])
+        out.append(":".join([hx(f["name"]), hx(f["key"]), ("%04x" % f["token"]) if f["token"] is not None else "-",
+                             {"once": "o", "dup": "d", "last": "l"}[f["dup"]], miss]))
+    return ";".join(out)
+
+
+def model_kvs(sname, doc, M):
+    """the key/value list the MapAccess delivers: keys after token resolution, values as the result of
+    deserializing them into the matched field's type (None if a key cannot be resolved)"""
+    S = STRUCTS[sname]
+    tokened = S[0]["token"] is not None
+    out = []
+    for fd in doc["f"]:
+        if M.kind == "bin" and fd["kb"] == "ID":
+            if tokened:
+                key = "T%04x" % fd["kid"]
+                fld = next((f for f in S if f["token"] == fd["kid"]), None)
+            else:
+                if fd["k"] not in M.known:
+                    return None
+                key = "S" + hx(fd["k"])
+                fld = next((f for f in S if f["key"] == fd["k"]), None)
+        else:
+            key = "S" + hx(fd["k"])
+            fld = next((f for f in S if f["key"] == fd["k"]), None)
+        if fld is None:
+            res = "o" + hx("(ign)")
+        else:
+            sh = ("opt", fld["sh"]) if (sname, fld["name"]) in OPTION_FIELDS else fld["sh"]
+            try:
+                res = "o" + hx(D.expected_value(sh, fd["v"], M, fd["op"]))
+            except D.SpecErr as e:
+                res = "e" + e.cls
+        out.append(key + "=" + res)
+    return ";".join(out) if out else "-"
+
 # ------------------------------------------------------------------------------------------ inputs
 def gen_fit(rng, sh, st, bad=0.0):
     """a document value for a field of shape sh (ill-typed with probability `bad`)"""
@@ -221,6 +262,11 @@ def run(ctx):
                 res = D.resolver_spec(ids, known, rng.choice(["map", "lines"]))
                 mt = D.max_token_len(doc, enc)
                 numeric_unknown = S[0]["token"] is not None and any(f["k"][:1].isdigit() for f in doc["f"])
+                kt, kb2 = model_kvs(sname, doc, Mt), model_kvs(sname, doc, Mb)
+                if not numeric_unknown and kt is not None:
+                    mcases.append("\t".join(["dv.text.m", "slice", enc, sname, hx(txt), model_specs(sname), kt]))
+                if kb2 is not None:
+                    mcases.append("\t".join(["dv.bin.m", "tape", strat, res, fl, sname, hx(b), model_specs(sname), kb2]))
                 if not numeric_unknown:
                     for p in ["slice", "tape", "objreader", "reader:%d:%s" % (rng.choice([mt, 64 + mt, 32768]), rng.choice(["-", "1*", "3,5*"]))]:
                         cases.append("\t".join(["dv.text", p, enc, sname, hx(txt)]))
@@ -234,11 +280,8 @@ def run(ctx):
         o = impl[base + k]
         if o != exp:
             ctx.fail("field-semantics-" + p.split(":")[0], "%s path on %s returns %s, the field semantics say %s" % (p, cases[k].split("\t")[-2], o[:200], exp[:200]), [cases[k]], [o], exp)
-    try:
-        from props import C18_model
-    except ImportError:
-        return
-    C18_model.run(ctx, STRUCTS, OPTION_FIELDS, build_obj, M18, derive_expected)
+    # the extracted Derive.visit folds the same key/value lists (values pre-evaluated per occurrence)
+    ctx.correspond("model", mcases, nontrivial=nt)
 
 
 def search(ctx):
